@@ -88,11 +88,21 @@ def struct_residual(data, mask):
     return float(numpy.max(numpy.abs(data[:, :, mask]))) if mask.any() else 0.0
 
 
+_EIGH_FORM = [0]
+
+
 def check_eigh(ap, rep, viol, Ad, meta, spec, split):
     UTPM = ap.UTPM
     D, P, n = Ad.shape[0], Ad.shape[1], Ad.shape[2]
     try:
-        l, Q = ap.eigh(mkU(Ad))
+        _EIGH_FORM[0] += 1
+        if _EIGH_FORM[0] % 3 == 0:
+            # call form with caller-supplied, prefilled result buffers (reused preallocated results)
+            l = UTPM(numpy.full((D, P, n), 7.25)); Q = UTPM(numpy.full((D, P, n, n), -3.5))
+            UTPM.eigh(mkU(Ad), out=(l, Q))
+            rep.count('call form', 'eigh(A, out=(prefilled l, prefilled Q))')
+        else:
+            l, Q = ap.eigh(mkU(Ad))
         ld, Qd = numpy.asarray(l.data), numpy.asarray(Q.data)
         Ao, Qo = obj_mats(Ad), obj_mats(Qd)
         lo = obj_mats(ld)
@@ -335,6 +345,25 @@ def main(tier, seed):
                             viol(entry, '%s (n=%d, D=%d): factors differ from the (model-checked) factors of lu by %.2g (L), %.2g (U)' % (entry, n, D, dl, du), dict(meta, op=entry))
         except Exception as e:
             viol('lu:exception:%s' % type(e).__name__, 'lu (n=%d) raises %r' % (n, e), meta, exc=repr(e))
+        # ================================================================= eigh: EXACTLY diagonal data (unsorted diagonals, equal entries that are not adjacent)
+        if not getattr(rep, '_diag_sweep_done', False):
+            rep._diag_sweep_done = True
+            for dname, A0, A1 in [('diag(3,1,2)', numpy.diag([3.0, 1.0, 2.0]), None), ('diag(2,1,2)', numpy.diag([2.0, 1.0, 2.0]), None),
+                                  ('2 I + t diag(5,1,5)', 2.0 * numpy.eye(3), numpy.diag([5.0, 1.0, 5.0])), ('diag(-1,4)', numpy.diag([4.0, -1.0]), None),
+                                  ('diag(1,1,3,1)', numpy.diag([1.0, 1.0, 3.0, 1.0]), None)]:
+                n_ = A0.shape[0]
+                for De in (3, 4):
+                    Ae = numpy.zeros((De, 2, n_, n_))
+                    for idx in numpy.ndindex(*Ae.shape):
+                        Ae[idx] = dy(rng)
+                    Ae = 0.5 * (Ae + Ae.transpose((0, 1, 3, 2)))
+                    Ae[0, :] = A0
+                    if A1 is not None:
+                        Ae[1, :] = A1
+                    meta = dict(op='eigh', spectrum='exactly diagonal base: ' + dname, n=n_, D=De, P=2, A=Ae.tolist())
+                    case('eigh:diagonal-base', meta, True)
+                    rep.count('eigh: exactly diagonal base', dname)
+                    check_eigh(algopy, rep, viol, Ae, meta, 'repeated' if dname != 'diag(3,1,2)' and dname != 'diag(-1,4)' else 'distinct', None)
         # ================================================================= eigh: every (degree, splitting order) pair once per run
         if not getattr(rep, '_split_sweep_done', False):
             rep._split_sweep_done = True
